@@ -198,27 +198,64 @@ def run(ctx, repo):
         else:
             ctx.finding('R2', '%s::get_specific_event_code::identity arm list' % IMPL, IMPL, first.lineno,
                         'the codes that get a weight are %s, the implement table knows %s' % (listed, sorted(EVENTS)))
+    # every other accepted code passes through unchanged: evaluated over the listed vocabularies of codes.py and the shortest
+    # ~1500 members of L(PAT_EVENT_CODE) enumerated from the automaton
+    from ..xval import enumerate_lang
+    vocab = set()
+    for nm in ('FIELD_EVENTS', 'MULTI_EVENTS', 'CUSTOM_EVENTS', 'STANDARD_MALE_TRACK_EVENTS', 'STANDARD_FEMALE_TRACK_EVENTS', 'JUMPS', 'THROWS'):
+        v = P.env.get(nm)
+        if isinstance(v, (list, tuple)):
+            vocab |= {x for x in v if isinstance(x, str)}
+    upper_blocks = frozenset(b for b in range(P.A.n) if P.A.sizes[b] == 1 and P.A.reps[b].isascii() and P.A.reps[b].isupper())
+    letters_only = rx.inter(P.dfa('PAT_EVENT_CODE'), ro.sigma_star_set(P.A, upper_blocks))
+    vocab |= set(enumerate_lang(P, letters_only, limit=4000, maxlen=8))          # every all-upper-case letter code (finite)
+    vocab |= set(enumerate_lang(P, P.dfa('PAT_EVENT_CODE'), limit=600, maxlen=5))   # plus the shortest codes with digits
+    changed = []
+    n_pass = 0
+    for c in sorted(vocab):
+        if c in EVENTS:
+            continue
+        n_pass += 1
+        try:
+            r = F.call(gsec, [c, 'M', 'SEN'], {})
+        except fold.Unfoldable as e:
+            raise AnalysisError('get_specific_event_code not evaluable on %r: %s' % (c, e))
+        except Exception as e:
+            r = '<%s>' % type(e).__name__
+        if r != c:
+            changed.append((c, r))
+    ctx.count('non-throw codes evaluated for pass-through', n_pass)
+    if changed:
+        ctx.finding('R2', '%s::get_specific_event_code::non-throw codes unchanged' % IMPL, IMPL, fn.lineno,
+                    '%d accepted codes that are not one of the five generic throws are not passed through unchanged, e.g. %r becomes %r' % (
+                        len(changed), changed[0][0], changed[0][1]), changed[:5])
     else:
-        # evaluate on samples of other codes
-        bad = []
-        for c in ('100', 'HJ', 'LJ', '4x100', 'DEC', 'MAR', 'BT', 'OT'):
-            try:
-                if F.call(gsec, [c, 'M', 'SEN'], {}) != c:
-                    bad.append(c)
-            except Exception:
-                bad.append(c)
-        if bad:
-            ctx.finding('R2', '%s::get_specific_event_code::non-throw codes unchanged' % IMPL, IMPL, fn.lineno,
-                        'non-throw codes are not passed through unchanged, e.g. %s' % bad)
-        else:
-            ctx.ok('R2', 'non-throw codes are returned unchanged (evaluated)')
+        ctx.ok('R2', 'all %d other accepted codes evaluated are returned unchanged' % n_pass)
     # ---- R3 table keys
     D = P.dfa('PAT_EVENT_CODE')
+    cec = utils.func('check_event_code')
+    crets = [n for n in ast.walk(cec) if isinstance(n, ast.Return)]
+    xform = None
+    if len(crets) == 1 and isinstance(crets[0].value, ast.Call) and isinstance(crets[0].value.func, ast.Attribute) \
+            and crets[0].value.func.attr in ('match', 'fullmatch') and ast.unparse(crets[0].value.func.value) == 'PAT_EVENT_CODE' and crets[0].value.args:
+        xform = crets[0].value.args[0]
+        cparam = cec.args.args[0].arg
+    else:
+        raise AnalysisError('check_event_code is not `return PAT_EVENT_CODE.match(<argument>)`')
+
+    def checker_accepts(k):
+        if isinstance(xform, ast.Name) and xform.id == cparam:
+            return rx.accepts(D, k)
+        try:
+            k2 = fold.Folder().expr(xform, {cparam: k})
+        except Exception as e:
+            raise AnalysisError('check_event_code: argument transformation %s not evaluable: %s' % (unparse(xform), e))
+        return isinstance(k2, str) and rx.accepts(D, k2)
     keys = table_keys(repo)
     seen = set()
     nbad = 0
     for lab, rel, k in keys:
-        if not isinstance(k, str) or not rx.accepts(D, k):
+        if not isinstance(k, str) or not checker_accepts(k):
             tkey = (lab.split()[0], k)
             if tkey in seen:
                 continue
